@@ -47,8 +47,10 @@ def generic_rules(ctx, config, U):
     t = one(outs)
     Dq = S.app(DIV, S.P(1, "rhs"), S.app("Unit::as_qty", ps[3]))
     want = S.new(S.R(("/", ("*", ps[0], Dq), ps[2])), ps[1])
-    ok = t is not None and S.match(t, want) is None
-    ctx.ob("rate-mul-qty", config, ok, "Rate{a,u,m,p} * q = %s, expected new(a * (q / as_qty(p)) / m, u)" % (T.show(t) if t else outs), b["span"])
+    probs = list(S.compare_cases(outs, [], lambda val: ("val", want)))
+    ctx.ob("rate-mul-qty", config, not probs,
+           "Rate{a,u,m,p} * q: %s — expected new(a * (q / as_qty(p)) / m, u) in every case; observed %s" % (
+               probs[0][1] if probs else "", "; ".join("[%s] %s" % (T.show_guard(g), T.show(x)) for g, k, x in outs)), b["span"])
     ctx.sample({"function": path, "summary": T.show(t) if t else str(outs)})
 
 
@@ -77,6 +79,7 @@ def per_type(ctx, config, w):
             except T.Unsupported as x:
                 ctx.fail("rate-op", inst, "unsupported construct: " + x.what, x.sp or b["span"])
                 continue
+            outs = [(g, k, T.canon(x)) for (g, k, x) in outs]
             t = one(outs)
             if op == "*":
                 Dq = S.app(DIV, q_, S.app("Unit::as_qty", ps[3]))
@@ -86,13 +89,14 @@ def per_type(ctx, config, w):
                 Dq = S.app(DIV, q_, S.app("Unit::as_qty", ps[1]))
                 want = S.new(S.R(("*", ("/", Dq, ps[0]), ps[2])), ps[3])
                 text = "new((q / as_qty(term_unit)) / term_amount * per_unit_multiple, per_unit)"
-            ok = t is not None and S.match(t, want) is None
-            ctx.ob("rate-op", inst, ok, "body is %s, expected %s" % (T.show(t) if t else outs, text), b["span"])
+            probs = list(S.compare_cases(outs, [], lambda val, want=want: ("val", want)))
+            ctx.ob("rate-op", inst, not probs, "%s — expected %s in every case; observed %s" % (
+                probs[0][1] if probs else "", text, "; ".join("[%s] %s" % (T.show_guard(g), T.show(x)) for g, k, x in outs)), b["span"])
             # the like-quantity ratio used is Q / Q of this very type
             divs = [f for f in ev.calls_seen if f.get("trait") == "core::ops::arith::Div" and model.ty_key(f["args"][0]) == Q]
             ctx.ob("rate-op-ratio", inst, len(divs) == 1 and model.ty_key(divs[0]["args"][1]) == Q,
                    "the like-quantity ratio is not `%s / %s`" % (Q, Q), b["span"], nontrivial=False)
-            forms[op] = (t, b, imp)
+            forms[op] = (t if not probs else None, b, imp) if t is not None else (None, b, imp)
             n += 1
         # 6. q / r == q * reciprocal(r) as rational functions
         if "*" in forms and "/" in forms and forms["/"][0] is not None:
